@@ -359,3 +359,109 @@ pub fn run_case(c: &Case) -> (String, u64) {
     };
     (v, steps)
 }
+
+// ---------------------------------------------------------------------------------------------
+// Watchdog.  A regression of the termination property (C09) shows as a hang, and ./check only
+// kills a silent harness after 30 s per case, so a run with many such cases would not finish.
+// The harness therefore evaluates every case in a persistent WORKER process (this executable
+// started again with VERIF_TC_WORKER=1, same line protocol) and waits for each answer with a
+// time limit; when the limit expires the worker is killed and `hang` is the case's output, when
+// the worker dies the output is `crash:<rc>` (same words as ./check uses).  The limit is
+// WATCHDOG_MS per case and drops to WATCHDOG_AFTER_MS once WATCHDOG_STRIKES cases have hung
+// (the run is failing by then; this only bounds its duration).
+use std::io::{BufRead, BufReader, Write};
+use std::process::{Child, ChildStdin, Command, Stdio};
+use std::sync::mpsc::{channel, Receiver, RecvTimeoutError};
+use std::time::Duration;
+
+const WATCHDOG_MS: u64 = 8000;
+const WATCHDOG_AFTER_MS: u64 = 700;
+const WATCHDOG_STRIKES: u32 = 3;
+
+struct Worker {
+    child: Child,
+    stdin: ChildStdin,
+    rx:    Receiver<String>,
+}
+
+fn spawn_worker() -> Worker {
+    let exe = std::env::current_exe().unwrap();
+    let mut child = Command::new(exe)
+        .arg("run")
+        .env("VERIF_TC_WORKER", "1")
+        .stdin(Stdio::piped())
+        .stdout(Stdio::piped())
+        .stderr(Stdio::null())
+        .spawn()
+        .unwrap();
+    let stdin = child.stdin.take().unwrap();
+    let stdout = child.stdout.take().unwrap();
+    let (tx, rx) = channel();
+    std::thread::spawn(move || {
+        for l in BufReader::new(stdout).lines() {
+            match l {
+                Ok(l) => {
+                    if tx.send(l).is_err() {
+                        break
+                    }
+                },
+                Err(_) => break,
+            }
+        }
+    });
+    Worker { child, stdin, rx }
+}
+
+thread_local! {
+    static WORKER: std::cell::RefCell<Option<Worker>> = std::cell::RefCell::new(None);
+    static STRIKES: std::cell::Cell<u32> = std::cell::Cell::new(0);
+}
+
+/// evaluates `line` with `direct`, in the worker process under the watchdog (or right here when
+/// this process is the worker)
+pub fn guarded(line: &str, direct: fn(&str) -> String) -> String {
+    if std::env::var_os("VERIF_TC_WORKER").is_some() {
+        return direct(line)
+    }
+    WORKER.with(|w| {
+        let mut w = w.borrow_mut();
+        if w.is_none() {
+            *w = Some(spawn_worker());
+        }
+        let wk = w.as_mut().unwrap();
+        let sent = writeln!(wk.stdin, "{}", line.replace('\n', " ")).and_then(|_| wk.stdin.flush());
+        let limit = if STRIKES.with(|c| c.get()) >= WATCHDOG_STRIKES {
+            WATCHDOG_AFTER_MS
+        } else {
+            WATCHDOG_MS
+        };
+        let r = if sent.is_ok() {
+            wk.rx.recv_timeout(Duration::from_millis(limit))
+        } else {
+            Err(RecvTimeoutError::Disconnected)
+        };
+        match r {
+            Ok(s) => s,
+            Err(RecvTimeoutError::Timeout) => {
+                let _ = wk.child.kill();
+                let _ = wk.child.wait();
+                *w = None;
+                STRIKES.with(|c| c.set(c.get() + 1));
+                "hang".to_string()
+            },
+            Err(RecvTimeoutError::Disconnected) => {
+                use std::os::unix::process::ExitStatusExt;
+                let rc = match wk.child.wait() {
+                    Ok(st) => match (st.code(), st.signal()) {
+                        (Some(c), _) => c,
+                        (None, Some(sig)) => -sig,
+                        _ => -1,
+                    },
+                    Err(_) => -1,
+                };
+                *w = None;
+                format!("crash:{}", rc)
+            },
+        }
+    })
+}
